@@ -12,6 +12,7 @@ unmarked, reference counts ≥ 1), see bin/check C10.
 import Gkv.Model.Versions
 import Gkv.Proofs.VersionsFine
 import Gkv.Proofs.VersionsLeak
+import Gkv.Props.Locks
 open Std
 
 namespace Gkv.Props.C10
@@ -62,5 +63,21 @@ theorem last_version_freed {G : St → Nat → Prop} (hG : ∀ s p, G s p → Gk
 theorem orphan_leak_exists :
     ¬ (∀ s, Reach Gkv.VersionsLeak.FT s → (∀ v, s.refs v = 0) → ∀ n, (∃ v, s.tree v n) → s.freed n) :=
   Gkv.VersionsLeak.all_closed_all_freed_false
+
+/-! ### the protocol's precondition, code side
+
+`recycling_safe` speaks about readers that ACQUIRE a version before they read it and release it
+afterwards (the `acquire` / `release` events).  That the code's readers do so is a fact about the
+source, regenerated on every run (`Gen/Pins.lean`): every function that reads through a
+collection's root takes its own pin and releases it by `defer`, and the only `rootAddRef` calls that
+are not paired this way hand the pin to another owner.  A reader that walks a version it has not
+pinned itself (seeded change C10g: "snapshots are immutable, skip the pin") refutes this. -/
+theorem every_reader_holds_its_version :
+    (∀ f ∈ Gkv.Props.Locks.pinnedReaders, (f, true, true) ∈ Gen.Pins.pins) ∧
+    (Gen.Pins.pinSites.filter (fun x => x.2 == "paired")).map (·.1) =
+      ["Collection.Delete", "Collection.GetItem", "Collection.GetTotals", "Collection.MarshalJSON",
+       "Collection.SetItem", "Collection.VisitItemsAscendEx", "Collection.VisitItemsDescendEx",
+       "Collection.Write", "Store.walk"] :=
+  ⟨Gkv.Props.Locks.readers_pin_and_unpin, by rw [Gkv.Props.Locks.every_pin_site_is_reviewed]; decide⟩
 
 end Gkv.Props.C10
